@@ -81,6 +81,7 @@ type Frame struct {
 	sites    map[string]Term // site flags
 	siteLookups map[string]func(string) (Term, types.Type, bool)
 	siteRets map[string]sval // result of the call at a site
+	siteAfter map[string]*State // state just after the call at a site returned
 	pendingSiteRet string
 	siteStates map[string]*State // state in which a site was reached (single-path sites)
 	siteArgs map[string]sval // "SITE.i": argument i of the call at the site (merged over the paths that reach it)
